@@ -533,8 +533,20 @@ theorem j_backendClose (w : World) (s : Nat) (hJ : JAll w) : JAll (backendClose 
     unfold Jc at hj ⊢; rw [e1, e2]; omega
   · rw [h1 i hi] at hc'; exact hJ i c' hc'
 
+theorem doneAux_dr (a : Aux) : (doneAux a).dispatched = a.dispatched ∧ a.reconnects ≤ (doneAux a).reconnects := by
+  unfold doneAux incompleteAux; split
+  · exact ⟨rfl, Nat.le_refl _⟩
+  · split
+    · exact ⟨rfl, Nat.le_refl _⟩
+    · split <;> exact ⟨rfl, Nat.le_refl _⟩
+
+theorem errAux_dr (a : Aux) : (errAux a).dispatched = a.dispatched ∧ a.reconnects ≤ (errAux a).reconnects := by
+  unfold errAux incompleteAux; split
+  · exact ⟨rfl, Nat.le_refl _⟩
+  · split <;> exact ⟨rfl, Nat.le_refl _⟩
+
 theorem j_backendDone (w : World) (s : Nat) (hJ : JAll w) : JAll (backendDone w s) := by
-  unfold backendDone; split <;> j_close
+  unfold backendDone; exact j_updAux _ _ _ hJ doneAux_dr
 
 theorem j_connectionClose (w : World) (s : Nat) (hJ : JAll w) : JAll (connectionClose w s) := by
   have h1 := j_backendClose w s hJ
@@ -545,8 +557,7 @@ theorem j_connectionClose (w : World) (s : Nat) (hJ : JAll w) : JAll (connection
 
 theorem j_backendError (w : World) (s : Nat) (hJ : JAll w) : JAll (backendError w s).2 := by
   unfold backendError; dsimp only
-  refine j_connectionClose _ _ ?_
-  split <;> j_close
+  exact j_connectionClose _ _ (j_updAux _ _ _ hJ errAux_dr)
 
 theorem drsame_reconnect (w : World) (s : Nat) : DRSame s w (reconnect w s).2 := by
   have h1 := (drsame_backendClose w s).trans (drsame_hostGet (backendClose w s) s)
